@@ -54,8 +54,12 @@ type mapperHarness struct {
 	reloads int
 	delThenReload,
 	dirtyDelete bool
-	fpSeen  bool
-	tainted bool // the map's current counters descend from a recomputation with a Bloom false positive
+	fpSeen      bool
+	redundant   int    // tombstones in the .idx that deleted nothing (redundant deletes)
+	maxTombKey  uint64 // largest key of such a tombstone
+	maxKeyFloor uint64 // MaxFileKey adopted after a reload (may cover a redundant tombstone's key)
+	nRedelete   int
+	tainted     bool // the map's current counters descend from a recomputation with a Bloom false positive
 }
 
 func (h *mapperHarness) trace() string {
@@ -153,6 +157,50 @@ func (h *mapperHarness) del(t fataler, k uint64, units int64) bool {
 	return false
 }
 
+// redelete mirrors the incremental-backup replay (VolumeFileScanner4GenIdx.VisitNeedle): Delete is called for
+// a key that is already deleted or was never stored. Nothing may change but, possibly, one more tombstone in the .idx.
+func (h *mapperHarness) redelete(t fataler, k uint64, units int64) bool {
+	v := h.ref.m[k]
+	if v != nil && !v.deleted {
+		return h.del(t, k, units)
+	}
+	if v == nil && vlib.Known(keyAlias) && aliasClass(h.shadow.VerifSectionStarts(), k) {
+		vlib.Excluded(keyAlias)
+		return true
+	}
+	if v != nil && vlib.Known(keyOverflowDelete) && h.shadow.VerifInOverflow(types.NeedleId(k)) {
+		vlib.Excluded(keyOverflowDelete)
+		return true
+	}
+	what := "never stored"
+	if v != nil {
+		what = "already deleted"
+	}
+	h.ops = append(h.ops, fmt.Sprintf("Redelete(%x,%d)", k, units))
+	sizeBefore := h.nm.IndexFileSize()
+	if err := h.nm.Delete(types.NeedleId(k), offOf(units)); err != nil {
+		t.Fatalf("Delete(%x) of a key that is %s: %v\nops: %s", k, what, err, h.trace())
+	}
+	h.shadow.Delete(types.NeedleId(k))
+	h.nRedelete++
+	switch grown := h.nm.IndexFileSize() - sizeBefore; grown {
+	case 0:
+	case uint64(types.NeedleMapEntrySize):
+		h.idx = append(h.idx, idxRec{k, units, -1})
+		h.redundant++
+		if k > h.maxTombKey {
+			h.maxTombKey = k
+		}
+	default:
+		t.Fatalf("Delete(%x) of a key that is %s grew the .idx by %d bytes\nops: %s", k, what, grown, h.trace())
+	}
+	checkLookup(t, h.kind+" NeedleMapper", k, v, h.lookup(k), h.trace)
+	h.checkInvariants(t, "after the redundant delete", h.tainted)
+	return false
+}
+
+func (h *mapperHarness) wantMaxKey() uint64 { return max(h.ref.maxKey, h.maxKeyFloor) }
+
 // checkInvariants ties the counters to the reference: live keys, live bytes, largest key, index length.
 func (h *mapperHarness) checkInvariants(t fataler, when string, skipCounts bool) {
 	c := readCounters(h.nm)
@@ -163,8 +211,8 @@ func (h *mapperHarness) checkInvariants(t fataler, when string, skipCounts bool)
 			liveBytes += uint64(v.size)
 		}
 	}
-	if c.maxKey != h.ref.maxKey {
-		t.Fatalf("%s: MaxFileKey %x, largest key ever put %x\nops: %s", when, c.maxKey, h.ref.maxKey, h.trace())
+	if c.maxKey != h.wantMaxKey() {
+		t.Fatalf("%s: MaxFileKey %x, largest key ever put %x\nops: %s", when, c.maxKey, h.wantMaxKey(), h.trace())
 	}
 	if got := h.nm.IndexFileSize(); got != uint64(len(h.idx)*types.NeedleMapEntrySize) {
 		t.Fatalf("%s: IndexFileSize %d, want %d entries of %d bytes\nops: %s", when, got, len(h.idx), types.NeedleMapEntrySize, h.trace())
@@ -207,6 +255,10 @@ func (h *mapperHarness) sweep(t fataler, when string) {
 }
 
 func (h *mapperHarness) reload(t fataler) {
+	if h.kind == "memory" && h.redundant > 0 && vlib.Known(keyRedundantTomb) {
+		vlib.Excluded(keyRedundantTomb) // listed finding: the in-memory loader counts tombstones that deleted nothing
+		return
+	}
 	before := readCounters(h.nm)
 	h.sweep(t, "before close")
 	h.nm.Close()
@@ -227,6 +279,11 @@ func (h *mapperHarness) reload(t fataler) {
 		before.files, before.deleted, before.deletedSz = after.files, after.deleted, after.deletedSz
 	}
 	h.tainted = fp
+	// the loaders take MaxFileKey over every index entry, so it may now also cover a redundant tombstone's key
+	if after.maxKey != before.maxKey && h.redundant > 0 && after.maxKey == max(before.maxKey, h.maxTombKey) {
+		h.maxKeyFloor = after.maxKey
+		before.maxKey = after.maxKey
+	}
 	if before != after {
 		t.Fatalf("%s map: counters before close %v, after reloading the same .idx %v\nops: %s", h.kind, before, after, h.trace())
 	}
@@ -256,7 +313,7 @@ func (h *mapperHarness) sortedFileLookups(t fataler, probes []uint64) {
 		checkLookup(t, "sorted-file NeedleMapper", k, h.ref.m[k], get(k), h.trace)
 	}
 	c := readCounters(sm)
-	if c.maxKey != h.ref.maxKey {
+	if c.maxKey != h.ref.maxKey && !(h.redundant > 0 && c.maxKey == max(h.ref.maxKey, h.maxTombKey)) {
 		t.Fatalf("sorted-file map: MaxFileKey %x, want %x\nops: %s", c.maxKey, h.ref.maxKey, h.trace())
 	}
 }
@@ -316,7 +373,7 @@ func TestPropNeedleMapperHistory(t *testing.T) {
 		}
 		nOps := rapid.IntRange(1, 60).Draw(t, "nOps")
 		for i := 0; i < nOps; i++ {
-			switch rapid.SampledFrom([]string{"put", "put", "put", "put", "delete", "delete", "delete", "reload", "check", "check"}).Draw(t, "op") {
+			switch rapid.SampledFrom([]string{"put", "put", "put", "put", "delete", "delete", "delete", "redelete", "redelete", "reload", "check", "check"}).Draw(t, "op") {
 			case "put":
 				k, kk := h.pick(t, "put", base)
 				if kk == "far" {
@@ -332,6 +389,31 @@ func TestPropNeedleMapperHistory(t *testing.T) {
 				k, _ := h.pick(t, "del", base)
 				if u := h.nextUnits(t); u > 0 {
 					h.del(t, k, u)
+				}
+			case "redelete":
+				// an already deleted key if there is one (2 of 3 draws), else / otherwise a key that was never stored
+				var dead []uint64
+				for _, k := range h.ref.keys {
+					if h.ref.m[k].deleted {
+						dead = append(dead, k)
+					}
+				}
+				var k uint64
+				if len(dead) > 0 && rapid.IntRange(0, 2).Draw(t, "redeleteDead") > 0 {
+					k = dead[rapid.IntRange(0, len(dead)-1).Draw(t, "deadIdx")]
+				} else {
+					k, _ = h.pick(t, "redel", base)
+					if v := h.ref.m[k]; v != nil && !v.deleted {
+						k += 1 << 20 // next to nothing stored
+					}
+				}
+				if u := h.nextUnits(t); u > 0 {
+					h.redelete(t, k, u)
+					if rapid.Bool().Draw(t, "again") { // and once more: the replay may hold several tombstones
+						if u := h.nextUnits(t); u > 0 {
+							h.redelete(t, k, u)
+						}
+					}
 				}
 			case "reload":
 				if h.reloads < 4 {
@@ -361,6 +443,12 @@ func TestPropNeedleMapperHistory(t *testing.T) {
 		}
 		if h.fpSeen {
 			classes = append(classes, "mapper-bloom-false-positive")
+		}
+		if h.nRedelete > 0 {
+			classes = append(classes, "mapper-redundant-delete")
+		}
+		if h.redundant > 0 {
+			classes = append(classes, "mapper-redundant-tombstone-in-idx")
 		}
 		over := 0
 		for _, n := range h.puts {
